@@ -72,6 +72,23 @@ that only together let the counter step over the limit) was caught through the c
 C05 gained an independent Python statement of the nesting rule as a direct oracle for both verdicts;
 M66 (C06: `[,]` for an empty array with the trailing-comma flag) — C06's flagged stream sets array
 flags too.
+C08-C14 (M68-M74): 4 caught at once (C09, C10, C12, C13); M69 (C08: `Array::retain` emptying an array with
+a trailing comma prints `[,`) was caught through the reviewed probe corpus only — C08 gained the op `adelr`
+(removal through `retain`) and 'drain' histories that empty trailing-comma arrays through both mutators; M72
+(C11: `toml::Value`'s `visit_u64` wraps above `i64::MAX`, reachable only from a foreign deserializer) was
+missed — C11 gained the `vv` op (every width handed to `toml::Value` / `toml::Table` by serde's primitive
+deserializers) with `Model/SerdeInt.lean` and the theorems `T11_visit_*`; M74 (C14: a newtype key over
+`Spanned<String>`) was missed — C14 now reads every document with four key kinds, which also exposed the
+genuine defect F35 in the unchanged code (reported by the same sub-agent as a side observation).
+C15-C20 (M75-M80): 4 caught at once (C15 by the new located-decoder stream, C16, C17, C19); M78 (C18: the
+`serde` feature of toml_edit no longer forwards `toml_datetime/serde`; hidden by feature unification whenever
+`toml` is in the build graph) was missed — C18 now runs `cargo check -p <crate>` for each crate ALONE in its
+serde-on / serde-off configurations; M80 (C20: the pretty formatter returns before descending into arrays of
+0 or 1 elements) was seen by C07/C17 only through the probe corpus — C20 gained a direct oracle on the crate's
+own `VisitMut` client (every array of the `to_string_pretty` output has the layout its length calls for) and
+a generator of arrays of every length nested in each other.
+Round 4 in numbers: 20 changes, 12 caught at once by the check of their own property, 8 led to a strengthening;
+over all four rounds: 80 changes, 56 caught at once, 24 after a strengthening, none left uncaught.
 """
 p = os.path.join(ROOT, "DESIGN.md")
 s = open(p).read()
